@@ -171,6 +171,17 @@ def guarded_index(ctx, crate, crs, tag):
                         if any(q.mentions_field(rr, a, fld) for a, f2 in TABLES if f2 == fld):
                             # either edge may lead to the access, as long as the out-of-range edge resizes first
                             strict_ok = (side is c.b and c.op in ("Ge", "Lt")) or (side is c.a and c.op in ("Le", "Gt"))
+                            if not strict_ok and len(t["args"]) > 1:
+                                # `len < idx + 1` / `idx + 1 > len`: the same test against the required length of this very index
+                                other = c.b if side is c.a else c.a
+                                lt = (side is c.a and c.op == "Lt") or (side is c.b and c.op == "Gt")
+                                od, _ = q.origin_thru(b, other, transparent=set())
+                                if lt and od.get("k") == "rvalue" and od["r"]["k"] == "bin" and od["r"]["op"].replace("WithOverflow", "") == "Add" and \
+                                        any(o.get("k") == "const" and o.get("v") == 1 for o in (od["r"]["a"], od["r"]["b"])):
+                                    base = od["r"]["a"] if od["r"]["b"].get("k") == "const" else od["r"]["b"]
+                                    if q.slice_locals(b, base) & q.slice_locals(b, t["args"][1]) or \
+                                            (q.leaves(b, base) & q.leaves(b, t["args"][1])) - {"const"}:
+                                        strict_ok = True
                             if not strict_ok:
                                 # `len < n` is the right test when n is a required *length*: the maximum over a collection of
                                 # (index + 1), grown to before the same collection is walked (benign refactor 73: grow once)
@@ -181,7 +192,7 @@ def guarded_index(ctx, crate, crs, tag):
                             if b.dominates(c.bb, i):
                                 tr, fl = c.target(True), c.target(False)
                                 resize = [x for x, tt in b.calls() if tt.get("f") and tt["f"]["name"] in ("resize", "resize_with")]
-                                out_edge = tr if (c.op == "Le" and side is c.a) or (c.op == "Ge" and side is c.b) else fl
+                                out_edge = tr if (c.op in ("Le", "Lt") and side is c.a) or (c.op in ("Ge", "Gt") and side is c.b) else fl
                                 # simple: access reachable from the out-of-range edge only through a resize
                                 reach_wo = b.reachable([out_edge], avoid=resize)
                                 if i not in reach_wo or out_edge is None:
